@@ -279,7 +279,7 @@ Proof.
   destruct (len p <? _)%N; [discriminate|].
   destruct ((frag =? 1)%N && _); [discriminate|].
   match type of H with (if negb ?c then _ else _) = _ => destruct c eqn:C end; cbn [negb] in H; [|discriminate].
-  injection H as <-. unfold hdr_end, hdr_start, hdr_plen. cbn [m_ver m_frag m_len].
+  injection H as Hm. subst m. unfold hdr_end, hdr_start, hdr_plen. cbn [m_ver m_frag m_len].
   apply N.eqb_eq in C. unfold len in C.
   destruct (ver =? 1)%N, (frag =? 1)%N; split; lia.
 Qed.
